@@ -233,6 +233,13 @@ Definition store_db (w : world) (mb : N) (ms : list msgid) (op : fop) (f : flags
       set_flags (fold_left (fun fl m => flags_upd fl m (fun _ => rest)) ms (w_flags w1)) w1
   end.
 
+(* APPEND: a new message entity with its shared flags (\Deleted is kept per mailbox) and a new row with the next UID *)
+Definition append_db (w : world) (mb : N) (f : flagset) : world :=
+  let m := w_nextid w in
+  let u := next_of w mb in
+  let w1 := mkW (w_flags w ++ [(m, fl_rem f [fl_deleted])]) (w_mbox w) (w_next w) (m + 1) (w_sess w) in
+  set_next mb (u + 1) (set_mbox mb (mbox_of w1 mb ++ [mkRow m u (fl_mem fl_deleted f)]) w1).
+
 (* finish a command of session i: broadcast the updates, then perform the handler's flushes *)
 Definition finish (w : world) (i : nat) (ups : list update) (cmd_silent : bool) (permits : list bool)
   : option (world * list resp) :=
@@ -299,9 +306,7 @@ Definition do_cmd (w : world) (i : nat) (c : command) : world * list resp * outc
       | CAppend mb f =>
           let m := w_nextid w in
           let u := next_of w mb in
-          let fshared := fl_rem f [fl_deleted] in
-          let w1 := mkW (w_flags w ++ [(m, fshared)]) (w_mbox w) (w_next w) (m + 1) (w_sess w) in
-          let w2 := set_next mb (u + 1) (set_mbox mb (mbox_of w1 mb ++ [mkRow m u (fl_mem fl_deleted f)]) w1) in
+          let w2 := append_db w mb f in
           let same := match ss_sel s with Some sel => sel =? mb | None => false end in
           ret (finish w2 i [UExists mb [(m, u, f)] (if same then Some i else None)] false (if same then own_permits "handleAppend" else []))
       | CDone => (w, [], OBadState)
